@@ -134,6 +134,14 @@ class E2E:
         spec = ["E2E", specs, k, rw]
         vs = [vals.build(s) for s in specs]
         try:
+            # an earlier tracing session of the same process, configured with ANOTHER limit and its own database: every
+            # session must use the limit of the configuration it was started with
+            prime_db = os.path.join(self.dir, f"prime{self.n}.sqlite3")
+            os.environ.update(MTV_DB=prime_db, MTV_K=str(10 if k != 10 else 1))
+            with monkeytype.trace(fx_cfg.CONFIG):
+                fx_target.ident({"a": 1, "b": "x"})
+            os.unlink(prime_db)
+            os.environ.update(MTV_DB=db, MTV_K=str(k))
             with monkeytype.trace(fx_cfg.CONFIG):
                 for i, v in enumerate(vs):
                     fx_target.ident(v)
@@ -175,9 +183,12 @@ class E2E:
                         return ctx.fail("C06/store:empty-or-nonstr-dict-as-typeddict" if through_td else "C06/store:handed-back-value-not-admitted-by-any-trace", spec,
                                         f"{fname}() handed back {v!r}; no stored trace of it has a {'yield' if fname == 'gen_emptied' else 'return'} type that admits this value "
                                         f"other than through a TypedDict: {[show(T) for T in outs if T is not None][:4]}")
+            self.n_stub = getattr(self, "n_stub", 0) + 1
+            glob = ["--disable-type-rewriting"] if self.n_stub % 2 == 0 else []  # every other stub without type rewriting
+            ctx.label("stub-flags:" + (glob[0] if glob else "none"))
             out, err = io.StringIO(), io.StringIO()
             try:
-                rc = cli.main(["-c", "fx_cfg:CONFIG", "stub", "fx_target"], out, err)
+                rc = cli.main(["-c", "fx_cfg:CONFIG"] + glob + ["stub", "fx_target"], out, err)
             except Exception as e:
                 ctx.label("cli-crash:" + type(e).__name__)
                 return
